@@ -35,7 +35,7 @@ def queries(tier):
             qs.append(dict(name='escape_%s_len%d' % (nm, L), unit='ser', harness='h_escape.c', defs={'MODE': mode, 'LEN': L}, unwind=6 * L + 18,
                            timeout=900, mem_gb=6, desc='JSON::escape_string mode %s on %d symbolic bytes (all 256 values): alphabet per mode, independent unescaper inverts' % (nm, L),
                            bounds='input length == %d, all byte values' % L))
-    shapes = [(1, 0, 0), (1, 1, 0), (2, 0, 0), (1, 0, 1), (1, 1, 1)] if tier == 'quick' else \
+    shapes = [(1, 0, 0), (1, 1, 0), (2, 0, 0), (1, 0, 1), (1, 1, 1), (1, 5, 1), (6, 0, 0)] if tier == 'quick' else \
              [(i, f, 0) for i in (1, 2, 3, 6) for f in (0, 1, 2, 5)] + [(1, f, 1) for f in (0, 1, 2, 5)]
     for (i, f, e) in shapes:
         qs.append(dict(name='float_i%d_f%d_e%d' % (i, f, e), unit='ser', harness='h_float.c', defs={'IDIG': i, 'FDIG': f, 'EXPO': e}, unwind=i + f + 12, unwindset=SCALAR_REC,
